@@ -169,6 +169,8 @@ theorem C29_step_inv (s : Impl) (op : Op) (h : Inv s) : Inv (s.step op).1 := by
   | put k v => exact C29_put_inv s k v h
   | clear => constructor <;> simp [Impl.step, keys]
   | len => exact h
+  | isEmpty => exact h
+  | stats => exact h
 
 /-- **Invariant, every reachable state** (induction over the history, no bound). -/
 theorem C29_reachable_inv (cap : Nat) (ops : List Op) : Inv (Impl.final (Impl.new cap) ops) := by
@@ -191,6 +193,8 @@ theorem step_cap (s : Impl) (op : Op) : (s.step op).1.cap = s.cap := by
         · rfl
   | clear => rfl
   | len => rfl
+  | isEmpty => rfl
+  | stats => rfl
 
 theorem final_cap (s : Impl) (ops : List Op) : (Impl.final s ops).cap = s.cap := by
   induction ops generalizing s with
@@ -320,6 +324,13 @@ theorem C29_step_refines (s : Impl) (op : Op) (h : Inv s) :
           rw [h1]; rfl
   | clear => simp [Impl.step, Spec.step, abs]
   | len => simp [Impl.step, Spec.step, abs_length s h]
+  | isEmpty =>
+    have := abs_length s h
+    simp only [Impl.step, Spec.step, true_and, Out.flag.injEq]
+    cases hm : s.map <;> cases hi : (abs s).items <;> simp_all
+  | stats =>
+    simp only [Impl.step, Spec.step, abs_length s h, true_and]
+    rfl
 
 /-- **Refinement, every history**: the outputs of the real cache's model equal those of the
     abstract LRU map for every capacity and every operation sequence. -/
@@ -395,6 +406,105 @@ theorem C29_no_eviction_below_capacity (s : Impl) (k v : Nat) (h : Inv s)
   exact List.take_of_length_le (by simp only [List.length_cons]; omega)
 
 /-! Non-vacuity: the hypotheses above are met by concrete, non-trivial reachable states. -/
+/-! ## Lookups return the value most recently stored -/
+
+theorem impl_step_tracks (s : Impl) (h : Inv s) (f : Nat → Option Nat) (op : Op)
+    (hf : ∀ k v, lookup k s.map = some v → f k = some v) :
+    ∀ k v, lookup k (s.step op).1.map = some v → track f op k = some v := by
+  intro k v hl
+  cases op with
+  | get k0 =>
+    simp only [Impl.step, Impl.get] at hl
+    split at hl <;> exact hf k v hl
+  | put k0 v0 =>
+    simp only [Impl.step] at hl
+    unfold Impl.put at hl
+    simp only [track]
+    by_cases hc : s.cap = 0
+    · have hz := h.size_le
+      have : s.map = [] := List.eq_nil_of_length_eq_zero (by omega)
+      simp [hc, this, lookup] at hl
+    · simp only [hc, if_false] at hl
+      by_cases hk : k = k0
+      · subst hk
+        rw [lookup_insertKV_self] at hl
+        simp [hl]
+      · rw [lookup_insertKV_ne k0 v0 k _ hk] at hl
+        rw [if_neg hk]
+        apply hf
+        split at hl
+        · exact hl
+        · split at hl
+          · split at hl
+            · rename_i lru _
+              simp only at hl
+              by_cases hkl : k = lru
+              · subst hkl; rw [lookup_removeK_self] at hl; cases hl
+              · rwa [lookup_removeK_ne lru k _ hkl] at hl
+            · exact hl
+          · exact hl
+  | clear => simp [Impl.step, lookup] at hl
+  | len => exact hf k v hl
+  | isEmpty => exact hf k v hl
+  | stats => exact hf k v hl
+
+theorem impl_final_tracks (ops : List Op) (s : Impl) (h : Inv s) (f : Nat → Option Nat)
+    (hf : ∀ k v, lookup k s.map = some v → f k = some v) :
+    ∀ k v, lookup k (Impl.final s ops).map = some v → ops.foldl track f k = some v := by
+  induction ops generalizing s f with
+  | nil => exact hf
+  | cons op ops ih =>
+    simp only [Impl.final, List.foldl_cons]
+    exact ih _ (C29_step_inv s op h) _ (impl_step_tracks s h f op hf)
+
+/-- **Every lookup returns the value most recently stored for that key**: after any history, for
+any capacity, a `get k` that hits returns exactly the value of the last `put k _` since the last
+`clear` (never a stale value, never a value stored under another key, never one that was
+cleared). A miss is the only other answer (the key was evicted, cleared or never stored). -/
+theorem C29_get_returns_last_stored (cap : Nat) (pre : List Op) (k : Nat) :
+    ((Impl.final (Impl.new cap) pre).step (.get k)).2 = .none ∨
+    ∃ v, ((Impl.final (Impl.new cap) pre).step (.get k)).2 = .val v ∧ lastStored pre k = some v := by
+  have ht := impl_final_tracks pre (Impl.new cap) (C29_inv_new cap) (fun _ => Option.none)
+    (by intro k v hl; simp [Impl.new, lookup] at hl)
+  simp only [Impl.step, Impl.get]
+  cases hl : lookup k (Impl.final (Impl.new cap) pre).map with
+  | none => left; rfl
+  | some v => right; exact ⟨v, rfl, ht k v hl⟩
+
+example : ((Impl.final (Impl.new 2) [.put 1 10, .put 1 11, .put 2 20]).step (.get 1)).2 = .val 11 ∧
+    lastStored [.put 1 10, .put 1 11, .put 2 20] 1 = some 11 := by decide
+
+/-- `is_empty` and `stats` report the abstract map's size and the construction-time capacity. -/
+theorem C29_stats_reports (cap : Nat) (ops : List Op) :
+    ((Impl.final (Impl.new cap) ops).step .stats).2 =
+      .stats (Spec.final (Spec.new cap) ops).items.length cap ∧
+    ((Impl.final (Impl.new cap) ops).step .isEmpty).2 =
+      .flag (Spec.final (Spec.new cap) ops).items.isEmpty := by
+  have hi := C29_reachable_inv cap ops
+  have hr := C29_final_refines cap ops
+  have h1 := (C29_step_refines _ .stats hi).2
+  have h2 := (C29_step_refines _ .isEmpty hi).2
+  rw [hr] at h1 h2
+  refine ⟨?_, h2⟩
+  rw [h1]
+  simp only [Spec.step]
+  have : (Spec.final (Spec.new cap) ops).cap = cap := by
+    rw [← hr]; exact final_cap _ ops
+  rw [this]
+
+example : ((Impl.final (Impl.new 3) [.put 1 10, .put 2 20]).step .stats).2 = .stats 2 3 := by decide
+
+/-- `MemoryManager::new(options).cache()` is `None` exactly for `cache_size = 0`; otherwise the
+cache has that capacity (so the capacity-0 path of `put` is unreachable through the manager). -/
+theorem C29_manager_cache (n : Nat) :
+    (managerCache n = Option.none ↔ n = 0) ∧ ∀ c, managerCache n = some c → c = Impl.new n ∧ c.cap ≠ 0 := by
+  unfold managerCache
+  by_cases h : n > 0
+  · simp [h, Impl.new]; omega
+  · simp [h]; omega
+
+example : managerCache 5 = some (Impl.new 5) := by decide
+
 example : Inv (Impl.final (Impl.new 2) [.put 1 10, .put 2 20, .get 1, .put 3 30]) :=
   C29_reachable_inv 2 _
 example : Impl.run (Impl.new 2) [.put 1 10, .put 2 20, .get 1, .put 3 30, .get 2, .get 1, .len]
